@@ -727,6 +727,11 @@ def mutate_targeted(rng, doc):
     emit("graph.time_units", lambda d: d.__setitem__("time_units", ""))
     emit("graph.doi", lambda d: d.__setitem__("doi", [""]))
     emit("graph.no-demes", lambda d: d.__setitem__("demes", []))
+    # a symmetric migration that names one deme more than once: it asks for a migration from a deme to itself (invalid by
+    # construction, whatever else the entry says -- an undefined name, a rate above one)
+    for lst, extra in (([names[0], names[0]], {}), ([names[-1]] * 3, {}), (["nosuchdeme", "nosuchdeme"], {}),
+                       ([names[0], names[0]], {"rate": 1.5})):
+        emit("symmetric.repeated-deme", lambda d, lst=lst, extra=extra: d["migrations"].append(dict(dict(demes=list(lst), rate=0.01), **extra)))
     # defaults that are invalid even though unused
     for sect, key, val in (("epoch", "start_size", 0), ("epoch", "end_time", INF), ("epoch", "selfing_rate", 2),
                            ("deme", "start_time", 0), ("deme", "ancestors", ["not valid"]), ("migration", "rate", 1.5),
@@ -801,6 +806,19 @@ def boundary_families(rng):
             e = copy.deepcopy(base)
             e["demes"].append(deme("E", min(tb, tc) / 2, anc, props))
             out.append(("family.ancestry-proportions-sum", e))
+        # pulse proportions of one, two and three sources around a sum of one (the bound is exact: no tolerance), written
+        # on the pulse or taken from defaults.pulse
+        for srcs, props in ((["B"], [1]), (["B"], [1.0000000001]), (["B", "C"], [0.5, 0.5]), (["B", "C"], [0.5, 0.5000000001]),
+                            (["B", "C"], [1.0, 1e-10]), (["B", "C"], [0.3, 0.7]), (["B", "C"], [0.1, 0.2]),
+                            (["B", "C", "A"], [0.5, 0.25, 0.25]), (["B", "C", "A"], [0.5, 0.25, 0.2500000001]),
+                            (["B", "C", "A"], [0.6, 0.3, 0.1000000000000001])):
+            e = copy.deepcopy(base)
+            e["pulses"] = [dict(sources=srcs, dest="D", time=1, proportions=props)]
+            out.append(("family.pulse-proportions-sum", e))
+            e = copy.deepcopy(base)
+            e["defaults"] = dict(pulse=dict(proportions=props))
+            e["pulses"] = [dict(sources=srcs, dest="D", time=1)]
+            out.append(("family.pulse-default-proportions-sum", e))
     rng.shuffle(out)
     return out
 
